@@ -5,6 +5,7 @@
 //! trusted: R15 (deep slices): SpendableOutputDescriptor::create_spendable_outputs_psbt: the TxIn built in each of the three arms (static payment output with its `sequence` statement, delayed payment output, static output) verbatim as functions of the descriptor; OutPoint::into_bitcoin_outpoint is re-declared (txid, index widened to u32); the duplicate test, the witness weights, the input value sum (MAX_MONEY test) and the PSBT assembly are dropped and not claimed
 //! trusted: R15 (deep slices): KeysManager::sign_spendable_outputs_psbt: the statement that (re)fills the per-channel signer cache in the StaticPaymentOutput and DelayedPaymentOutput arms, verbatim as functions of the cache and the descriptor; derive_channel_keys is the uninterpreted signer_of(channel_keys_id); R8: `a != b` on 32-byte ids -> arr_ne; locating the input, signing and the StaticOutput arm are dropped and not claimed
 //! trusted: R15 (deep slice): ChannelMonitorImpl::get_spendable_outputs: the body of the loop over the outputs of a confirmed transaction, verbatim as a function of (index, output); the descriptor structs and enum SpendableOutputDescriptor are extracted from sign/mod.rs; the monitor is a six-field skeleton; scripts compare by identity; R8: `opt.as_ref() == Some(&x)` -> option_script_is (verified helper)
+//! trusted: R15 (deep slice): ChannelMonitorImpl::get_broadcasted_holder_claims: the body of the closure that turns an HTLC descriptor of our confirmed commitment into a claim package, verbatim as a function; PackageTemplate::build_package / HolderHTLCOutput::build record their arguments; the revokable-script triple and the descriptor list are dropped and not claimed
 //! assume: every requested output carries at most MAX_MONEY (a valid TxOut): the loop sums them with bitcoin::Amount's `+=`, which panics on u64 overflow before the `>= input_value` test can refuse (observation O8 in DESIGN); at most 1_000_000 outputs
 //! assume: transaction weight and witness weight are at most 4_000_000 (consensus block weight limit): the function computes fees in i64 after `as i64` casts
 //! trusted: assume_specification for core::cmp::max / core::cmp::min (std definitions): present in every unit so that a change that introduces them is verified instead of being rejected by the tool
@@ -294,6 +295,43 @@ impl ChannelMonitorImpl {
 }
 pub fn option_script_is(o: &Option<ScriptBuf>, s: &ScriptBuf) -> (r: bool) ensures r == (*o is Some && o->Some_0.id == s.id)
 { match o { Some(x) => x.id == s.id, None => false } }
+}
+
+// ---- ChannelMonitorImpl::get_broadcasted_holder_claims: one claim per non-dust HTLC of our confirmed commitment ---------
+pub mod holder_claims {
+use vstd::prelude::*;
+#[derive(Clone, Copy)] pub struct Txid(pub u64);
+#[derive(Clone, Copy)] pub struct HTLCOutputInCommitment { pub offered: bool, pub amount_msat: u64, pub cltv_expiry: u32, pub transaction_output_index: Option<u32> }
+#[derive(Clone, Copy)] pub struct HTLCDescriptor { pub htlc: HTLCOutputInCommitment, pub id: u64 }
+pub struct HolderHTLCOutput { pub desc: HTLCDescriptor, pub conf_height: u32 }
+impl HolderHTLCOutput { pub fn build(desc: HTLCDescriptor, conf_height: u32) -> (r: Self) ensures r.desc == desc, r.conf_height == conf_height { HolderHTLCOutput { desc, conf_height } } }
+pub enum PackageSolvingData { HolderHTLCOutput(HolderHTLCOutput), Other(u8) }
+pub struct PackageTemplate { pub txid: Txid, pub vout: u32, pub data: PackageSolvingData, pub counterparty_spendable_height: u32 }
+impl PackageTemplate { pub fn build_package(txid: Txid, vout: u32, data: PackageSolvingData, counterparty_spendable_height: u32) -> (r: Self)
+    ensures r.txid == txid, r.vout == vout, r.data == data, r.counterparty_spendable_height == counterparty_spendable_height { PackageTemplate { txid, vout, data, counterparty_spendable_height } } }
+pub struct TrustedTx { pub id: Txid }
+impl TrustedTx { #[verifier::external_body] pub fn txid(&self) -> (r: Txid) ensures r == self.id { unimplemented!() } }
+//@extract lightning/src/chain/channelmonitor.rs :: impl ChannelMonitorImpl :: fn get_broadcasted_holder_claims
+//@slice R15
+    .map(|htlc_descriptor| { $body:any }) .collect();
+//@with
+    fn claim_for_holder_htlc(htlc_descriptor: HTLCDescriptor, conf_height: u32, tx: &TrustedTx) -> PackageTemplate { $body }
+//@rw R10
+    .expect("Expected transaction output index for non-dust HTLC")
+//@with
+    .unwrap()
+//@ret r
+//@requires
+    htlc_descriptor.htlc.transaction_output_index is Some,
+//@ensures P C07 every-non-dust-htlc-of-our-confirmed-commitment-gets-a-claim-on-its-own-output-with-the-height-from-which-the-counterparty-can-contest-it
+    r.txid == tx.id && r.vout == htlc_descriptor.htlc.transaction_output_index->Some_0,
+    r.data == PackageSolvingData::HolderHTLCOutput(HolderHTLCOutput { desc: htlc_descriptor, conf_height }),
+    r.counterparty_spendable_height == (if htlc_descriptor.htlc.offered { conf_height } else { htlc_descriptor.htlc.cltv_expiry }),
+//@mutant received_htlc_contestable_at_once
+    if htlc_descriptor.htlc.offered { conf_height } else { htlc_descriptor.htlc.cltv_expiry };
+//@with
+    if htlc_descriptor.htlc.offered { htlc_descriptor.htlc.cltv_expiry } else { conf_height };
+//@end
 }
 }
 fn main() {}
